@@ -70,6 +70,7 @@ func (s *Scenario) key() string {
 // ---- assets (per worker: fonts are mutated by subsetting, so they are never shared between goroutines) ---
 
 type assets struct {
+	many string
 	fam  [4]*canvas.FontFamily // 1: TrueType, 2: CFF, 3: standard Helvetica (Type1, not embedded)
 	imgs [4]image.Image
 }
@@ -105,6 +106,34 @@ func newAssets() (*assets, error) {
 	}
 	a.imgs[3] = al2
 	return a, nil
+}
+
+// manyGlyphs returns a string whose characters map to exactly n distinct glyphs of the face's font (Latin, Latin-1,
+// Latin Extended-A, Greek, Cyrillic in code point order), so that the subsetter hands out the codes 1..n.
+func (a *assets) manyGlyphs(face *canvas.FontFace, n int) string {
+	if a.many != "" {
+		return a.many
+	}
+	seen := map[uint16]bool{0: true}
+	var sb strings.Builder
+	add := func(lo, hi rune) {
+		for r := lo; r <= hi && len(seen) <= n; r++ {
+			if r == 0xad {
+				continue
+			}
+			if g := face.Font.GlyphIndex(r); !seen[g] {
+				seen[g] = true
+				sb.WriteRune(r)
+			}
+		}
+	}
+	add(0x21, 0x7e)
+	add(0xa1, 0xff)
+	add(0x100, 0x17f)
+	add(0x391, 0x3c9)
+	add(0x410, 0x44f)
+	a.many = sb.String()
+	return a.many
 }
 
 var assetPool = sync.Pool{}
@@ -224,18 +253,26 @@ func execute(s *Scenario, a *assets) (res *result, ms []core.Mismatch) {
 			} else {
 				p.SetImageEncoding(canvas.Lossless)
 			}
-			p.RenderImage(a.imgs[c.A], m)
+			if c.C == 1 {
+				p.RenderImage(a.imgs[c.A], m.Scale(0, 1)) // singular: the transformed image has no width
+			} else {
+				p.RenderImage(a.imgs[c.A], m)
+			}
 		case "text":
 			face := a.fam[c.A].Face(12, canvas.Black)
+			str := texts[c.B]
+			if c.B == 9 {
+				str = a.manyGlyphs(face, 296)
+			}
 			var t *canvas.Text
 			if c.C == 1 {
 				rt := canvas.NewRichText(face)
 				rt.SetWritingMode(canvas.VerticalRL)
 				rt.SetTextOrientation(canvas.Upright)
-				rt.WriteString(texts[c.B])
+				rt.WriteString(str)
 				t = rt.ToText(0, 0, canvas.Left, canvas.Top, 0, 0)
 			} else {
-				t = canvas.NewTextLine(face, texts[c.B], canvas.Left)
+				t = canvas.NewTextLine(face, str, canvas.Left)
 			}
 			if c.A == 3 {
 				// what the layout hands to the writer for a standard font: the characters of the laid-out glyphs
